@@ -72,6 +72,97 @@ def same_exprs(pa, pb, rng):
     return None
 
 
+def model_correspondence(case, exported, res):
+    """Lean `Routine.toQ` (the export the C13 theorems are about) vs the document the real `Routine.to_qref` produced for the
+    same routine: every field, level by level; expressions compared semantically"""
+    from .. import model
+
+    if case.sexp is None:
+        return
+    r = model.run_driver(["toq " + case.sexp])[0]
+    res.stats["model_vs_impl_compared"] += 1
+    replay = {"qref": case.qref}
+    if r[0] != "ok":
+        res.disagreement("Routine.to_qref vs Bartiq.Routine.toQ (outcome)", replay, str(r)[:200], "exported")
+        return
+    if r[2] != "reimported":
+        res.disagreement("model re-import of its own export", replay, r[2], "reimported")
+    rng = random.Random(case.seed * 17 + 9)
+    diffs = []
+
+    def same_expr(where, mx, real):
+        if real is None:
+            real = "#" + where[-1] if where[-2] == "port" else None
+        if real is None:
+            diffs.append((where, "absent in the real export", E.to_str(E.from_sx(mx)), None))
+            return
+        v, d = compare.sem_equal(B.as_expression(str(real)), E.from_sx(mx), rng)
+        if v == "different":
+            diffs.append((where, "expression", str(real), E.to_str(E.from_sx(mx))))
+
+    def cmp(q, prog, path):
+        _, name, ty, ips, lvs, lks, ports, ress, conns, rep, kids = q
+        if name != prog.name or (None if ty == "_" else ty) != prog.type:
+            diffs.append((path, "name/type", (prog.name, prog.type), (name, ty)))
+        if sorted(ips) != sorted(prog.input_params):
+            diffs.append((path, "input_params", sorted(prog.input_params), sorted(ips)))
+        if sorted(v[0] for v in lvs) != sorted(prog.local_variables):
+            diffs.append((path, "local variable names", sorted(prog.local_variables), sorted(v[0] for v in lvs)))
+        else:
+            for v, e in lvs:
+                same_expr(path + ("local", v), e, prog.local_variables[v])
+        ml = sorted((lk[0], tuple(sorted((t[0] + "." + t[1]) for t in lk[1:]))) for lk in lks)
+        rl = sorted((str(lk.source), tuple(sorted(lk.targets))) for lk in prog.linked_params)
+        if ml != rl:
+            diffs.append((path, "linked_params", rl, ml))
+        rp = {p.name: p for p in prog.ports}
+        if sorted((p[0], p[1]) for p in ports) != sorted((p.name, p.direction) for p in prog.ports):
+            diffs.append((path, "ports", sorted(rp), sorted(p[0] for p in ports)))
+        else:
+            for pn, _, sz in ports:
+                same_expr(path + ("port", pn), sz, rp[pn].size)
+        rr = {x.name: x for x in prog.resources}
+        if sorted((x[0], x[1]) for x in ress) != sorted((x.name, x.type) for x in prog.resources):
+            diffs.append((path, "resources", sorted((x.name, x.type) for x in prog.resources), sorted((x[0], x[1]) for x in ress)))
+        else:
+            for rn, _, val in ress:
+                same_expr(path + ("resource", rn), val, rr[rn].value)
+        epn = lambda e: (e[1] if e[0] == "_" else e[0] + "." + e[1])  # noqa: E731
+        mc = sorted((epn(c[0]), epn(c[1])) for c in conns)
+        rc = sorted((c.source, c.target) for c in prog.connections)
+        if mc != rc:
+            diffs.append((path, "connections", rc, mc))
+        if (rep == "_") != (prog.repetition is None):
+            diffs.append((path, "repetition presence", prog.repetition is not None, rep != "_"))
+        elif rep != "_":
+            sq = prog.repetition.sequence
+            kind = rep[2][0]
+            if kind != sq.type:
+                diffs.append((path, "sequence kind", sq.type, kind))
+            else:
+                same_expr(path + ("rep", "count"), rep[1], prog.repetition.count)
+                fields = {"constant": ["multiplier"], "arithmetic": ["initial_term", "difference"], "geometric": ["ratio"],
+                          "closed_form": ["sum", "prod", "num_terms_symbol"], "custom": ["term_expression", "iterator_symbol"]}[kind]
+                for f, mx in zip(fields, rep[2][1:]):
+                    rv = getattr(sq, f)
+                    if mx == "_" or rv is None:
+                        if (mx == "_") != (rv is None):
+                            diffs.append((path, f"optional sequence field {f}", rv, mx))
+                    else:
+                        same_expr(path + ("rep", f), mx, rv)
+        rk = {c.name: c for c in prog.children}
+        if sorted(k[1] for k in kids) != sorted(rk):
+            diffs.append((path, "children", sorted(rk), sorted(k[1] for k in kids)))
+        else:
+            for k in kids:
+                cmp(k, rk[k[1]], path + (k[1],))
+
+    cmp(r[1], exported.program, ())
+    if diffs:
+        res.disagreement("Routine.to_qref vs Bartiq.Routine.toQ (document)", replay, [str(d[3])[:200] for d in diffs[:3]],
+                         [(list(map(str, d[0])), d[1], str(d[2])[:200]) for d in diffs[:3]])
+
+
 def oracle(case, res, extra):
     from bartiq import CompiledRoutine, Routine
     from qref import SchemaV1
@@ -108,6 +199,7 @@ def oracle(case, res, extra):
         res.violation("failing-input", f"exported document is not schema-valid ({type(e).__name__})", {"qref": case.qref}, str(e)[:300], "valid")
         return
     res.stats["uncompiled_exports"] += 1
+    model_correspondence(case, out2, res)
     sa, sb = struct_of(doc.program), struct_of(out2.program)
     if sa != sb:
         diff = [k for k in sa if sa[k] != sb[k]]
